@@ -545,6 +545,8 @@ package keyvalue
 //@                      memRec(f.fileData.fs, f.fileData.path).data == hData(f)))
 //@   ensures "mode-kept" implies(isMem(f.fileData.fs), fdMode(f.fileData) == old(fdMode(f.fileData)))
 //@   ensures "tree" [C03] implies(isMem(f.fileData.fs) && old(treeInv(f.fileData.fs)), treeInv(f.fileData.fs))
+//@   ensures "get-error" [C14] implies(isSerial(f.fileData.fs) && world() != old(world()) && old(storeGetErr(fsStore(f.fileData.fs), f.fileData.path)) != nil &&
+//@                     !errIs(old(storeGetErr(fsStore(f.fileData.fs), f.fileData.path)), hackpadfs.ErrNotExist), err != nil)
 //@   nopanic
 
 //@ spec isAppend(f *file) := f.flag&hackpadfs.FlagAppend != 0
@@ -624,6 +626,8 @@ package keyvalue
 //@                      memRec(f.fileData.fs, f.fileData.path).data == hData(f)))
 //@   ensures "mode-kept" implies(isMem(f.fileData.fs), fdMode(f.fileData) == old(fdMode(f.fileData)))
 //@   ensures "tree" [C03] implies(isMem(f.fileData.fs) && old(treeInv(f.fileData.fs)), treeInv(f.fileData.fs))
+//@   ensures "get-error" [C14] implies(isSerial(f.fileData.fs) && world() != old(world()) && old(storeGetErr(fsStore(f.fileData.fs), f.fileData.path)) != nil &&
+//@                     !errIs(old(storeGetErr(fsStore(f.fileData.fs), f.fileData.path)), hackpadfs.ErrNotExist), err != nil)
 //@   nopanic
 
 //@ func (f *file) Chmod(mode hackpadfs.FileMode) (err error)
@@ -647,6 +651,8 @@ package keyvalue
 //@                     (isType(kvRec(f.fileData.fs, f.fileData.path), mem.fileRecord) && memRec(f.fileData.fs, f.fileData.path).mode == fdMode(f.fileData) &&
 //@                      memRec(f.fileData.fs, f.fileData.path).data == hData(f)))
 //@   ensures "tree" [C03] implies(isMem(f.fileData.fs) && old(treeInv(f.fileData.fs)), treeInv(f.fileData.fs))
+//@   ensures "get-error" [C14] implies(isSerial(f.fileData.fs) && world() != old(world()) && old(storeGetErr(fsStore(f.fileData.fs), f.fileData.path)) != nil &&
+//@                     !errIs(old(storeGetErr(fsStore(f.fileData.fs), f.fileData.path)), hackpadfs.ErrNotExist), err != nil)
 //@   nopanic
 
 //@ func newDirEntry(fs hackpadfs.FS, basePath string, name string) (d *dirEntry, err error)
@@ -836,7 +842,7 @@ package keyvalue
 //@   modifies world()
 //@   ensures "gate" implies(!VP(path), f == nil && err == hackpadfs.ErrInvalid && world() == old(world()))
 //@   ensures "mem-hit" implies(VP(path) && isMem(fs) && kvHas(fs, path), err == nil && freshHandle(f, fs, path) && f.flag == 0 && fRec(f).record == kvRec(fs, path) && mem.recOK(fRec(f).record, ms(fs), path))
-//@   ensures "mem-miss" implies(VP(path) && isMem(fs) && !kvHas(fs, path), err == hackpadfs.ErrNotExist)
+//@   ensures "mem-miss" [C01 C05] implies(VP(path) && isMem(fs) && !kvHas(fs, path), err == hackpadfs.ErrNotExist)
 //@   ensures "mem-world" implies(isMem(fs), world() == old(world()))
 //@   ensures "serial" implies(VP(path) && isSerial(fs), freshHandle(f, fs, path) && fRec(f).record == old(storeGetRec(fsStore(fs), path)) &&
 //@                      err == old(storeGetErr(fsStore(fs), path)) && world() == old(storeGetW(fsStore(fs), path)))
@@ -861,7 +867,7 @@ package keyvalue
 //@                     infoRec(info) != nil && fresh(infoRec(info)) && roInv(infoRec(info).runOnceFileRecord) && infoRec(info).modeOverride == nil && infoRec(info).modTimeOverride == 0 &&
 //@                     !oncedone(infoRec(info).modeOnce) && !oncedone(infoRec(info).modTimeOnce) && infoRec(info).dataDone == 0)
 //@   ensures "mem-hit" implies(VP(name) && isMem(fs) && kvHas(fs, name), err == nil && infoRec(info).record == kvRec(fs, name))
-//@   ensures "mem-miss" implies(VP(name) && isMem(fs) && !kvHas(fs, name), errIs(err, hackpadfs.ErrNotExist))
+//@   ensures "mem-miss" [C01 C05] implies(VP(name) && isMem(fs) && !kvHas(fs, name), errIs(err, hackpadfs.ErrNotExist))
 //@   ensures "mem-world" implies(isMem(fs), world() == old(world()))
 //@   ensures "serial" [C14] implies(VP(name) && isSerial(fs), iff(err == nil, old(storeGetErr(fsStore(fs), name)) == nil) && world() == old(storeGetW(fsStore(fs), name)) &&
 //@                     implies(err != nil, innerErr(err) == old(storeGetErr(fsStore(fs), name))))
@@ -877,7 +883,7 @@ package keyvalue
 //@   modifies world(), mapOf(ms(fs).records)
 //@   ensures "gate" [C04] implies(!VP(name), pathErr(err, "chmod", name) && errIs(err, hackpadfs.ErrInvalid) && world() == old(world()) && implies(isMem(fs), memSame(fs)))
 //@   ensures "typed" [C05] implies(err != nil, pathErr(err, "chmod", name))
-//@   ensures "mem-miss" implies(VP(name) && isMem(fs) && !kvHas(fs, name), errIs(err, hackpadfs.ErrNotExist) && memSame(fs))
+//@   ensures "mem-miss" [C01 C05] implies(VP(name) && isMem(fs) && !kvHas(fs, name), errIs(err, hackpadfs.ErrNotExist) && memSame(fs))
 //@   ensures "mem-hit" [C01] implies(VP(name) && isMem(fs) && kvHas(fs, name), err == nil && kvHas(fs, name) && memSameExcept(fs, name) && isType(kvRec(fs, name), mem.fileRecord) &&
 //@                     memRec(fs, name).mode == (old(memRec(fs, name).mode) & ^chmodBits) | (mode & chmodBits) &&
 //@                     memRec(fs, name).data == old(memRec(fs, name).data) && memRec(fs, name).modTime == old(memRec(fs, name).modTime))
@@ -893,7 +899,7 @@ package keyvalue
 //@   modifies world(), mapOf(ms(fs).records)
 //@   ensures "gate" [C04] implies(!VP(name), pathErr(err, "chtimes", name) && errIs(err, hackpadfs.ErrInvalid) && world() == old(world()) && implies(isMem(fs), memSame(fs)))
 //@   ensures "typed" [C05] implies(err != nil, pathErr(err, "chtimes", name))
-//@   ensures "mem-miss" implies(VP(name) && isMem(fs) && !kvHas(fs, name), errIs(err, hackpadfs.ErrNotExist) && memSame(fs))
+//@   ensures "mem-miss" [C01 C05] implies(VP(name) && isMem(fs) && !kvHas(fs, name), errIs(err, hackpadfs.ErrNotExist) && memSame(fs))
 //@   ensures "mem-hit" [C01] implies(VP(name) && isMem(fs) && kvHas(fs, name), err == nil && kvHas(fs, name) && memSameExcept(fs, name) && isType(kvRec(fs, name), mem.fileRecord) &&
 //@                     memRec(fs, name).mode == old(memRec(fs, name).mode) && memRec(fs, name).data == old(memRec(fs, name).data) &&
 //@                     memRec(fs, name).modTime == ite(mtime != 0, mtime, old(memRec(fs, name).modTime)))
@@ -916,9 +922,9 @@ package keyvalue
 //@   modifies world(), mapOf(ms(fs).records)
 //@   ensures "gate" [C04] implies(!VP(name), pathErr(err, "remove", name) && errIs(err, hackpadfs.ErrInvalid) && world() == old(world()) && implies(isMem(fs), memSame(fs)))
 //@   ensures "typed" [C05] implies(err != nil, pathErr(err, "remove", name))
-//@   ensures "mem-miss" implies(VP(name) && isMem(fs) && !old(kvHas(fs, name)), errIs(err, hackpadfs.ErrNotExist) && memSame(fs))
-//@   ensures "root" [C03] implies(name == "." && isMem(fs) && old(kvHas(fs, name)), errIs(err, hackpadfs.ErrPermission) && memSame(fs))
-//@   ensures "mem-nonempty" [C03 C01] implies(VP(name) && name != "." && isMem(fs) && old(kvHas(fs, name)) && old(memIsDir(fs, name)) && old(memHasChildOf(fs, name)),
+//@   ensures "mem-miss" [C01 C05] implies(VP(name) && isMem(fs) && !old(kvHas(fs, name)), errIs(err, hackpadfs.ErrNotExist) && memSame(fs))
+//@   ensures "root" [C03 C05] implies(name == "." && isMem(fs) && old(kvHas(fs, name)), errIs(err, hackpadfs.ErrPermission) && memSame(fs))
+//@   ensures "mem-nonempty" [C03 C01 C05] implies(VP(name) && name != "." && isMem(fs) && old(kvHas(fs, name)) && old(memIsDir(fs, name)) && old(memHasChildOf(fs, name)),
 //@                     errIs(err, hackpadfs.ErrNotEmpty) && memSame(fs))
 //@   ensures "mem-removed" [C01] implies(VP(name) && name != "." && isMem(fs) && old(kvHas(fs, name)) && !(old(memIsDir(fs, name)) && old(memHasChildOf(fs, name))),
 //@                     err == nil && !kvHas(fs, name) && memSameExcept(fs, name))
@@ -955,9 +961,9 @@ package keyvalue
 //@   modifies world(), mapOf(ms(fs).records)
 //@   ensures "gate" [C04] implies(!VP(name), isPathError(err) && pathOf(err) == name && errIs(err, hackpadfs.ErrInvalid) && world() == old(world()) && implies(isMem(fs), memSame(fs)))
 //@   ensures "typed" [C05] implies(err != nil, isPathError(err) && pathOf(err) == name)
-//@   ensures "mem-exists" [C01] implies(VP(name) && isMem(fs) && old(kvHas(fs, name)), errIs(err, hackpadfs.ErrExist) && memSame(fs))
-//@   ensures "mem-no-parent" [C01 C03] implies(VP(name) && isMem(fs) && !old(kvHas(fs, name)) && name != "." && !old(kvHas(fs, pdir(name))), errIs(err, hackpadfs.ErrNotExist) && memSame(fs))
-//@   ensures "mem-parent-not-dir" [C01 C03] implies(VP(name) && isMem(fs) && !old(kvHas(fs, name)) && name != "." && old(kvHas(fs, pdir(name))) && !old(memIsDir(fs, pdir(name))),
+//@   ensures "mem-exists" [C01 C05] implies(VP(name) && isMem(fs) && old(kvHas(fs, name)), errIs(err, hackpadfs.ErrExist) && memSame(fs))
+//@   ensures "mem-no-parent" [C01 C03 C05] implies(VP(name) && isMem(fs) && !old(kvHas(fs, name)) && name != "." && !old(kvHas(fs, pdir(name))), errIs(err, hackpadfs.ErrNotExist) && memSame(fs))
+//@   ensures "mem-parent-not-dir" [C01 C03 C05] implies(VP(name) && isMem(fs) && !old(kvHas(fs, name)) && name != "." && old(kvHas(fs, pdir(name))) && !old(memIsDir(fs, pdir(name))),
 //@                     errIs(err, hackpadfs.ErrNotDir) && memSame(fs))
 //@   ensures "mem-created" [C01 C03] implies(VP(name) && isMem(fs) && !old(kvHas(fs, name)) && (name == "." || (old(kvHas(fs, pdir(name))) && old(memIsDir(fs, pdir(name))))),
 //@                     err == nil && kvHas(fs, name) && memSameExcept(fs, name) && isType(kvRec(fs, name), mem.fileRecord) &&
@@ -1028,16 +1034,20 @@ package keyvalue
 //@            rawData(kvRec(fs, name)).(*blob.Bytes).bytes, rawData(kvRec(fs, name)).(*blob.Bytes).length, elems(rawData(kvRec(fs, name)).(*blob.Bytes).bytes)
 //@   ensures "gate" [C04] implies(!VP(name), afFile == nil && pathErr(retErr, "open", name) && errIs(retErr, hackpadfs.ErrInvalid) && memSame(fs))
 //@   ensures "typed" [C05] implies(retErr != nil, pathErr(retErr, "open", name))
-//@   ensures "excl" [C01] implies(VP(name) && old(kvHas(fs, name)) && isCreate(flag) && flag & hackpadfs.FlagExclusive != 0, errIs(retErr, hackpadfs.ErrExist) && memSame(fs))
-//@   ensures "isdir" [C01] implies(VP(name) && old(kvHas(fs, name)) && old(memIsDir(fs, name)) && wantsWrite(flag) && !(isCreate(flag) && flag & hackpadfs.FlagExclusive != 0),
+//@   ensures "excl" [C01 C05] implies(VP(name) && old(kvHas(fs, name)) && isCreate(flag) && flag & hackpadfs.FlagExclusive != 0, errIs(retErr, hackpadfs.ErrExist) && memSame(fs))
+//@   ensures "isdir" [C01 C05] implies(VP(name) && old(kvHas(fs, name)) && old(memIsDir(fs, name)) && wantsWrite(flag) && !(isCreate(flag) && flag & hackpadfs.FlagExclusive != 0),
 //@                     errIs(retErr, hackpadfs.ErrIsDir) && memSame(fs))
-//@   ensures "missing" [C01] implies(VP(name) && !old(kvHas(fs, name)) && !isCreate(flag), errIs(retErr, hackpadfs.ErrNotExist) && memSame(fs))
-//@   ensures "no-parent" [C01 C03] implies(VP(name) && !old(kvHas(fs, name)) && isCreate(flag) && !old(kvHas(fs, pdir(name))), errIs(retErr, hackpadfs.ErrNotExist) && memSame(fs))
-//@   ensures "parent-not-dir" [C01 C03] implies(VP(name) && !old(kvHas(fs, name)) && isCreate(flag) && old(kvHas(fs, pdir(name))) && !old(memIsDir(fs, pdir(name))),
+//@   ensures "missing" [C01 C05] implies(VP(name) && !old(kvHas(fs, name)) && !isCreate(flag), errIs(retErr, hackpadfs.ErrNotExist) && memSame(fs))
+//@   ensures "no-parent" [C01 C03 C05] implies(VP(name) && !old(kvHas(fs, name)) && isCreate(flag) && !old(kvHas(fs, pdir(name))), errIs(retErr, hackpadfs.ErrNotExist) && memSame(fs))
+//@   ensures "parent-not-dir" [C01 C03 C05] implies(VP(name) && !old(kvHas(fs, name)) && isCreate(flag) && old(kvHas(fs, pdir(name))) && !old(memIsDir(fs, pdir(name))),
 //@                     errIs(retErr, hackpadfs.ErrNotDir) && memSame(fs))
 //@   ensures "created" [C01 C03] implies(VP(name) && !old(kvHas(fs, name)) && isCreate(flag) && old(kvHas(fs, pdir(name))) && old(memIsDir(fs, pdir(name))) && retErr == nil,
 //@                     kvHas(fs, name) && isType(kvRec(fs, name), mem.fileRecord) && memRec(fs, name).mode == perm & hackpadfs.ModePerm)
 //@   ensures "created-frame" [C01 C03] implies(VP(name) && !old(kvHas(fs, name)), memSameExcept(fs, name))
+//@   ensures "truncated" [C01 C02] implies(retErr == nil && flag & hackpadfs.FlagTruncate != 0 && old(kvHas(fs, name)),
+//@                     blob.blobLen(old(rawData(kvRec(fs, name)))) == 0 && isType(kvRec(fs, name), mem.fileRecord) && memRec(fs, name).data == old(rawData(kvRec(fs, name))))
+//@   ensures "not-truncated" [C01 C02] implies(flag & hackpadfs.FlagTruncate == 0 && old(kvHas(fs, name)), kvRec(fs, name) == old(kvRec(fs, name)) &&
+//@                     blob.blobLen(rawData(kvRec(fs, name))) == old(blob.blobLen(rawData(kvRec(fs, name)))))
 //@   ensures "existing-kept" [C01 C03] implies(VP(name) && old(kvHas(fs, name)), memSameExcept(fs, name) && kvHas(fs, name))
 //@   ensures "wrapper" [C02] implies(retErr == nil, afFile != nil &&
 //@                     iff(isType(afFile, *writeOnlyFile), flag & hackpadfs.FlagWriteOnly != 0) &&
